@@ -75,3 +75,12 @@ package ast
 //@   callers [C09] String format*
 //@ func (*Ident).String [C09]
 //@   callers [C09] String format* runDescribedTests
+
+// The renderings of whole declarations (source text with comments and layout) are for printing as well.
+// KNOWN FINDING of C09 (/verif/known_findings.json): the simulator's hash director hashes the rendering
+// of each backend declaration (getBackendByHash), so a comment inside a backend declaration changes the
+// backend a request is routed to. Not repaired: TestContentDirector pins the backend chosen with that hash.
+//@ func (*BackendDeclaration).String [C09]
+//@   callers [C09] String format*
+//@ func (*SubroutineDeclaration).String [C09]
+//@   callers [C09] String format*
